@@ -168,6 +168,7 @@ def dedup_replay(ctx, thorough):
                 ("FourI", [("FourI", 900)])]
     traces_ok = 0
     actions_seen = set()
+    runs, infos = [], {}
     for name, members in plan:
         cfg = DD_CONFIGS[name]
         scheds, seen = [], set()
@@ -181,21 +182,29 @@ def dedup_replay(ctx, thorough):
                 seen.add(key)
                 scheds.append({"id": "%s-%d" % (sim, len(scheds)), "steps": labs})
         trace = os.path.join(ctx.scratch, "dedup_%s.ndjson" % name)
-        inp = {"config": name, "nk": cfg["nk"], "maxGen": cfg["maxgen"],
-               "reqs": [{"id": r, "key": cfg["key_of"][r], "internal": r in cfg["internal"]} for r in cfg["reqs"]],
-               "probeKeys": cfg["probe"], "schedules": scheds, "traceOut": trace, "shortMs": 25}
-        res = ctx.go_driver("./c11", "TestDedupSchedules", inp, name="dedup_" + name, timeout=1500)
-        ctx.take_driver_result(res, "[dedup %s] " % name)
-        cnt = res.get("counters", {})
-        info = {"schedules": len(scheds), "replayed": res["cases"], "steps": cnt.get("steps", 0),
-                "steps_not_enabled_or_merged": cnt.get("steps_not_enabled_or_merged", 0),
-                "events": cnt.get("events", 0), "drift": res["drift"], "skipped": res.get("skipped", [])}
+        runs.append({"config": name, "nk": cfg["nk"], "maxGen": cfg["maxgen"],
+                     "reqs": [{"id": r, "key": cfg["key_of"][r], "internal": r in cfg["internal"]} for r in cfg["reqs"]],
+                     "probeKeys": cfg["probe"], "schedules": scheds, "traceOut": trace, "shortMs": 25})
+        infos[name] = {"schedules": len(scheds), "trace": trace}
+    res = ctx.go_driver("./c11", "TestDedupSchedules", {"runs": runs}, name="dedup_schedules", timeout=2400)
+    ctx.take_driver_result(res, "[dedup] ")
+    cnt = res.get("counters", {})
+    if res.get("skipped"):
+        raise vf.MachineryError("dedup schedule replay stalled: %s" % res["skipped"][:3])
+    for name, members in plan:
+        cfg = DD_CONFIGS[name]
+        info = infos[name]
+        trace = info.pop("trace")
+        info.update(replayed=cnt.get("cases_" + name, 0), steps=cnt.get("steps_" + name, 0),
+                    events=cnt.get("events_" + name, 0))
         ctx.cov["replay"]["dedup_" + name] = info
-        if res.get("skipped"):
-            raise vf.MachineryError("dedup schedule replay stalled (%s): %s" % (name, res["skipped"][:3]))
-        if cnt.get("steps", 0) < 3 * len(scheds):
+        if res.get("violations") and info["replayed"] < info["schedules"]:
+            continue   # the driver stopped at a violation
+        if info["replayed"] != info["schedules"]:
+            raise vf.MachineryError("dedup replay %s ran %d of %d schedules" % (name, info["replayed"], info["schedules"]))
+        if info["steps"] < 3 * info["schedules"]:
             raise vf.MachineryError("dedup replay %s executed only %d steps for %d schedules (vacuous)" % (
-                name, cnt.get("steps", 0), len(scheds)))
+                name, info["steps"], info["schedules"]))
         # (c) code -> spec
         nlines = sum(1 for _ in open(trace))
         ok, r = ctx.tlc_trace("Dedup", "Trace_Dedup.tla", cfg["trace"], trace, timeout=1500)
@@ -217,7 +226,7 @@ def dedup_replay(ctx, thorough):
                         "predicate failed. next line: %s" % (at_line, nlines, lines[at_line][:300] if at_line < nlines else ""))
                 info["trace_rejected_at"] = lines[max(0, at_line - 3): at_line + 1]
         else:
-            traces_ok += cnt.get("traces", 0)
+            traces_ok += cnt.get("traces_" + name, 0)
     missing = {"FirstLookup", "JoinGeneration", "Regroup", "ProbeLimit", "Wait", "Recheck", "LeadCheck", "Downstream",
                "DoneGeneration", "Timeout", "Deadline", "Cancel"} - actions_seen
     if missing:
@@ -285,9 +294,9 @@ def replay_core(ctx, path):
     if drv == "dedup":
         cfg = DD_CONFIGS[rp["config"]]
         steps = [x[len("drain:"):] if x.startswith("drain:") else x for x in rp["steps"]]
-        inp = {"config": rp["config"], "nk": cfg["nk"], "maxGen": cfg["maxgen"], "reqs": rp["reqs"],
-               "probeKeys": rp["probeKeys"], "schedules": [{"id": rp.get("schedule", "replay"), "steps": steps}],
-               "traceOut": "", "shortMs": 25}
+        inp = {"runs": [{"config": rp["config"], "nk": cfg["nk"], "maxGen": cfg["maxgen"], "reqs": rp["reqs"],
+                         "probeKeys": rp["probeKeys"], "schedules": [{"id": rp.get("schedule", "replay"), "steps": steps}],
+                         "traceOut": "", "shortMs": 25}]}
         res = ctx.go_driver("./c11", "TestDedupSchedules", inp, name="replay_dedup", timeout=600)
     elif drv == "waitgroup":
         res = ctx.go_driver("./c11", "TestWaitGroupReplay", {"nk": 2, "shortMs": 15, "behaviours": [rp["behaviour_full"]]},
